@@ -158,6 +158,8 @@ def decode(v):
 def classify(expr: str) -> list:
     """Coarse class of an expression: operator multiset + operand type classes (for finding signatures)."""
     import re
+    if '[module revision' in expr:
+        return ['module-revision']
     if '[module ' in expr:
         return ['cross-module']
     expr = expr.split('  [')[0]
@@ -299,6 +301,36 @@ def cross_module_cases():
                 except Exception as ex:  # noqa
                     got = ('raw', type(ex).__name__)
                 out.append((f'{e}  [module {k} (B={b}, C={c}) evaluated after modules {order[:order.index(k)]} by the same evaluator]', py, got))
+    # revisions: the same module path is edited and reloaded (what the interactive mode does for every input);
+    # the session and its evaluator live on
+    rev_exprs = [['B + 1', 'B * 2 + C', 'C - B', '1 + 5', "'p' + 'q'", 'X0 + 1'],
+                 ['B + 2', 'B * 2 - C', 'C % B', '2.5 + 2', "'r' + 's'", 'X0 * 2'],
+                 ['C + 1', 'B | C', 'C - B', '0x0F | 0x30', "'p' + 'q'", 'X1 + X0']]
+    for order in ([0, 1, 2], [2, 1, 0], [1, 0, 1]):
+        s = Session({'cmrev': 'from enum import Enum\n'})
+        ev = s.get(Evaluator)
+        done = []
+        for k in order:
+            b, c, sv = bases[k]
+            exprs_k = rev_exprs[k]
+            s.sources['cmrev'] = 'from enum import Enum\n\nclass F(Enum):\n' + f'\tB = {b}\n\tC = {c}\n\tS = {sv}\n' + ''.join(f'\tX{i} = {e}\n' for i, e in enumerate(exprs_k))
+            s.modules.unload('cmrev')
+            mod = s.load('cmrev')
+            enum = [n for n in mod.entrypoint.statements if isinstance(n, defs.Enum)][0]
+            values = {v.symbol.domain_name: v.declare.as_a(defs.MoveAssign).value for v in enum.vars}
+            ns = {'B': b, 'C': c, 'S': sv[1:-1], '__builtins__': {}}
+            for i, e in enumerate(exprs_k):
+                py = py_eval(e, ns)
+                if py[0] == 'ok':
+                    ns[f'X{i}'] = py[1]
+                try:
+                    got = ('ok', ev.exec(values[f'X{i}']))
+                except Errors.Error as ex:
+                    got = ('refused', type(ex).__name__)
+                except Exception as ex:  # noqa
+                    got = ('raw', type(ex).__name__)
+                out.append((f'{e}  [module revision {k} (B={b}, C={c}) loaded after revisions {done} of the same module path, same evaluator]', py, got))
+            done.append(k)
     return out
 
 
